@@ -32,6 +32,7 @@ type nOp struct {
 	RID    string `json:"rid,omitempty"`
 	Nil    bool   `json:"nil,omitempty"`   // ReplaceTrack(nil)
 	Munge  int    `json:"munge,omitempty"` // deliver-answer: rewrite every media direction to this value
+	MidTo  string `json:"midto,omitempty"` // deliver-answer / deliver-pranswer: the last m-section's mid becomes this
 }
 
 type nCase struct {
@@ -54,6 +55,8 @@ const (
 	nSetLocalA    = "setlocal-answer"
 	nDeliverO     = "deliver-offer"  // P receives the other peer's last offer
 	nDeliverA     = "deliver-answer" // P receives the other peer's last answer
+	nSetLocalP    = "setlocal-pranswer" // the last created answer, set as type pranswer
+	nDeliverP     = "deliver-pranswer"  // P receives the other peer's last answer as type pranswer
 	nClose        = "close"
 )
 
@@ -363,6 +366,34 @@ func nMungeDirections(sdpText string, dir int) string {
 	return strings.Join(lines, "\r\n")
 }
 
+// the last m-section's a=mid becomes `to` (a remote description naming a mid
+// this side has no transceiver for)
+func nMungeLastMid(sdpText, to string) string {
+	lines := strings.Split(sdpText, "\r\n")
+	was := ""
+	for i := len(lines) - 1; i >= 0; i-- {
+		if strings.HasPrefix(lines[i], "a=mid:") {
+			was = strings.TrimPrefix(lines[i], "a=mid:")
+			lines[i] = "a=mid:" + to
+			break
+		}
+	}
+	// keep the BUNDLE group consistent (extractICEDetails reads the credentials
+	// of the bundle's first mid)
+	for i, l := range lines {
+		if strings.HasPrefix(l, "a=group:BUNDLE") && was != "" {
+			f := strings.Split(l, " ")
+			for j := 1; j < len(f); j++ {
+				if f[j] == was {
+					f[j] = to
+				}
+			}
+			lines[i] = strings.Join(f, " ")
+		}
+	}
+	return strings.Join(lines, "\r\n")
+}
+
 // exec makes one call on the real PeerConnection; returns false when the call
 // is not made at all (nothing recorded).
 func (w *nWorld) exec(op nOp) bool {
@@ -496,12 +527,21 @@ func (w *nWorld) exec(op nOp) bool {
 	case nSetLocalA:
 		status = nStatus(pc.SetLocalDescription(webrtc.SessionDescription{Type: webrtc.SDPTypeAnswer}))
 		coq = "OSetLocal TAnswer"
-	case nDeliverO, nDeliverA:
+	case nSetLocalP:
+		status = nStatus(pc.SetLocalDescription(webrtc.SessionDescription{Type: webrtc.SDPTypePranswer}))
+		coq = "OSetLocal TPranswer"
+	case nDeliverO, nDeliverA, nDeliverP:
 		text, ty, cty := q.lastOffer, webrtc.SDPTypeOffer, "TOffer"
-		if op.K == nDeliverA {
+		if op.K != nDeliverO {
 			text, ty, cty = q.lastAnswer, webrtc.SDPTypeAnswer, "TAnswer"
+			if op.K == nDeliverP {
+				ty, cty = webrtc.SDPTypePranswer, "TPranswer"
+			}
 			if op.Munge != 0 && text != "" {
 				text = nMungeDirections(text, op.Munge)
+			}
+			if op.MidTo != "" && text != "" {
+				text = nMungeLastMid(text, op.MidTo)
 			}
 		}
 		if text == "" {
@@ -596,6 +636,18 @@ func nExchange(a int) []nOp {
 		{P: b, K: nSetLocalA}, {P: a, K: nDeliverA}}
 }
 
+// the same with provisional answers: b sets its answer as pranswer first, a
+// receives it as pranswer, then the final answer follows on both sides
+func nExchangePranswer(a int, again bool) []nOp {
+	b := 1 - a
+	ops := []nOp{{P: a, K: nOffer}, {P: a, K: nSetLocalO}, {P: b, K: nDeliverO}, {P: b, K: nAnswer},
+		{P: b, K: nSetLocalP}, {P: a, K: nDeliverP}}
+	if again {
+		ops = append(ops, nOp{P: b, K: nAnswer})
+	}
+	return append(ops, nOp{P: b, K: nSetLocalA}, nOp{P: a, K: nDeliverA})
+}
+
 func nGenCase(r *Rand, offerAfterEach bool) nCase {
 	c := nCase{Always: [2]bool{r.Chance(1, 6), r.Chance(1, 8)}, Engine: [2]int{r.Intn(4), r.Intn(4)}}
 	n := r.Range(2, 9)
@@ -616,7 +668,13 @@ func nGenCase(r *Rand, offerAfterEach bool) nCase {
 				a = 1
 			}
 			ex := nExchange(a)
+			if r.Chance(1, 4) {
+				ex = nExchangePranswer(a, r.Chance(1, 2))
+			}
 			for _, e := range ex {
+				if (e.K == nDeliverA || e.K == nDeliverP) && r.Chance(1, 14) {
+					e.MidTo = Pick(r, []string{"9", "7", "x"}) // the answer names a mid unknown here
+				}
 				if r.Chance(1, 12) { // something else happens in the middle of the exchange
 					c.Ops = append(c.Ops, nGenLocal(r, r.Intn(2)))
 				}
@@ -629,8 +687,9 @@ func nGenCase(r *Rand, offerAfterEach bool) nCase {
 				c.Ops = append(c.Ops, nOp{P: r.Intn(2), K: nOffer})
 			}
 		case x < 93:
-			c.Ops = append(c.Ops, nOp{P: r.Intn(2), K: Pick(r, []string{nOffer, nOffer, nAnswer, nSetLocalO, nSetLocalA, nDeliverO, nDeliverA})})
-		case x < 96:
+			c.Ops = append(c.Ops, nOp{P: r.Intn(2), K: Pick(r, []string{nOffer, nOffer, nAnswer, nSetLocalO, nSetLocalA, nDeliverO, nDeliverA,
+				nSetLocalP, nDeliverP})})
+		case x < 97:
 			c.Ops = append(c.Ops, nOp{P: r.Intn(2), K: nClose})
 		default:
 			c.Ops = append(c.Ops, nOp{P: 0, K: nOffer})
